@@ -678,7 +678,9 @@ pub fn check(tier: Tier) -> i32 {
     units.push(Unit::Devs { ty: Ty::Multipatch });
     let deadline = Some(started + std::time::Duration::from_secs(tier.pick(50, 1700)));
     let (agg, capped) = par_blocks(units.len(), deadline, |b, ctx, tick| enumerate(&units[b], ctx, tick));
-    let st = selftest();
+    // the self-test runs the library too: on a tree that panics there it counts as failed (a verdict, if there is one,
+    // takes precedence over it)
+    let st = catch(|| selftest()).unwrap_or((1, 0));
     finish(
         RunInfo {
             prop: "C16",
